@@ -2,7 +2,7 @@
 # Runs the repository's pinned baseline suite (guard off) in $1 (default /repo) and compares the passing set to /root/.vp/BASELINE.json
 set -u
 OUT=$(mktemp /tmp/baseline.XXXXXX.xml)
-cd "${1:-/repo}" && /venv/bin/python -m pytest -ra -q -p no:cacheprovider --timeout=900 --continue-on-collection-errors --junitxml=$OUT >/dev/null 2>&1
+cd "${1:-/repo}" && PYTHONPATH="${1:-/repo}" /venv/bin/python -m pytest -ra -q -p no:cacheprovider --timeout=900 --continue-on-collection-errors --junitxml=$OUT >/dev/null 2>&1
 /venv/bin/python - "$OUT" <<'PY'
 import sys, json, xml.etree.ElementTree as ET
 base=set(json.load(open('/root/.vp/BASELINE.json'))['stable_pass'])
